@@ -224,6 +224,98 @@ def run(ctx, report):
     else:
         R5.ok('returns-bound', sample='every name returned by emul_full_expr is bound on all paths (including zero iterations)')
 
+    # ---------------------------------------------------------------- D6 overlap assembly in eval_ExprMem
+    R6 = report.rule('C07.D6', 'a read overlapping earlier stores is assembled from pieces at non-negative, ascending positions', floor=20)
+    em = methods.get('eval_ExprMem')
+    rs = methods.get('rest_slice')
+    if em is None or rs is None:
+        raise AnalysisError('eval_abs.eval_ExprMem / rest_slice not found')
+    off_ifs = [n for n in walk_no_nested(em) if isinstance(n, ast.If) and u(n.test).replace(' ', '') == 'off>=0' and n.orelse]
+    if len(off_ifs) != 1:
+        raise AnalysisError('eval_ExprMem: the branch on the sign of the cell offset (off >= 0) was not found')
+    oi = off_ifs[0]
+
+    def appended(stmts):
+        return [c.args[0] for st in stmts for c in ast.walk(st) if isinstance(c, ast.Call) and u(c.func) == 'out.append' and c.args and isinstance(c.args[0], ast.Tuple)
+                and len(c.args[0].elts) == 3]
+    for t in appended(oi.body):
+        inst = 'overlap:cell-at-or-after-read:%s' % norm(t)
+        if u(t.elts[1]) == 'off_base' and u(t.elts[2]).replace(' ', '') in ('off_base+ee.get_size()', 'off_base+m'):
+            R6.ok(inst, sample='a cell starting inside the read is placed at off*8')
+        else:
+            R6.violation(inst, 'overlap:pos:after:%s' % norm(t), 'a cell that starts %s bytes after the read must be placed at bit off*8; found %s' % ('off', norm(t)), where(ea, t))
+    neg = appended(oi.orelse)
+    if not neg:
+        R6.violation('overlap:cell-before-read', 'overlap:neg:none', 'cells that start before the read are no longer merged into the result', where(ea, oi))
+    for t in neg:
+        inst = 'overlap:cell-before-read:%s' % norm(t)
+        p0 = t.elts[1]
+        if isinstance(p0, ast.Constant) and p0.value == 0 and u(t.elts[2]).replace(' ', '') in ('ee.get_size()', 'm+off*8', 'm-(-off*8)'):
+            R6.ok(inst, sample='the tail of a cell that starts before the read is placed at bit 0')
+        else:
+            R6.violation(inst, 'overlap:pos:before:%s' % norm(t), 'a cell that starts before the read (off < 0) is placed at %s, which is negative: its tail belongs at bit 0' % u(p0), where(ea, t),
+                         witness="after a 32-bit store at 0x1000, a 16-bit read at 0x1001 is not 0x3322")
+    # the slice taken from the earlier cell in the off < 0 branch: [-off*8 : min(size - off*8, cell size))
+    for st in oi.orelse:
+        for c in ast.walk(st):
+            if isinstance(c, ast.Call) and u(c.func) == 'ExprSlice' and len(c.args) == 3:
+                if u(c.args[1]).replace(' ', '') == '-off*8' and u(c.args[2]) == 'm':
+                    R6.ok('overlap:tail-slice', sample='tail slice of the earlier cell starts at -off*8')
+                else:
+                    R6.violation('overlap:tail-slice', 'overlap:tail-slice:%s' % norm(c), 'the part of an earlier cell that the read covers is %s; expected [-off*8 : m)' % norm(c), where(ea, c))
+    # rest_slice walks ascending positions: the argument is sorted by position right before the call
+    calls = [n for n in walk_no_nested(em) if isinstance(n, ast.Call) and u(n.func) == 'self.rest_slice']
+    if not calls:
+        raise AnalysisError('eval_ExprMem no longer computes the gaps with rest_slice')
+    for c in calls:
+        stc = c
+        while not isinstance(stc, ast.stmt):
+            stc = parent(stc)
+        blk = parent(stc).body if hasattr(parent(stc), 'body') and stc in parent(stc).body else None
+        ok_sorted = False
+        if blk is not None:
+            i = blk.index(stc)
+            if i > 0:
+                prev = blk[i - 1]
+                t = u(prev).replace(' ', '')
+                ok_sorted = t in ('out=sorted(out,key=lambdax:x[1])', 'out.sort(key=lambdax:x[1])')
+        inst = 'overlap:sorted-before-rest_slice'
+        if ok_sorted and u(c.args[0]) == 'out':
+            R6.ok(inst, sample='pieces are sorted by position immediately before rest_slice(out, ..)')
+        else:
+            R6.violation(inst, 'overlap:unsorted', 'rest_slice assumes ascending positions but eval_ExprMem does not sort the pieces right before calling it (they are collected in '
+                         'descending address order)', where(ea, c), witness='16-bit stores at 0x1000 and 0x1002, 32-bit read at 0x1001: TypeError in the simplifier')
+    # rest_slice itself: gaps of sorted, disjoint pieces are the complement
+    from ..consteval import Evaluator as _Ev, NotConst as _NC
+    n_rs = 0
+    slots = [0, 8, 16, 24, 32]
+    import itertools
+    pieces_all = [(a, b) for a in slots for b in slots if a < b]
+    for k in (1, 2, 3):
+        for combo in itertools.combinations(pieces_all, k):
+            if any(combo[i][1] > combo[i + 1][0] for i in range(len(combo) - 1)):
+                continue
+            n_rs += 1
+            sl = [('e', a, b) for a, b in combo]
+            try:
+                got = _Ev({}).call_user(rs, [None, sl, 0, 32])
+            except _NC as e:
+                raise AnalysisError('rest_slice is outside the evaluable subset: %s' % e)
+            want = []
+            pos = 0
+            for a, b in combo:
+                if a > pos:
+                    want.append((pos, a))
+                pos = b
+            if pos < 32:
+                want.append((pos, 32))
+            inst = 'rest_slice(%s)' % (list(combo),)
+            if [tuple(x) for x in got] == want:
+                R6.ok(inst, nontrivial=(n_rs % 4 == 0), sample='%s -> gaps %s' % (inst, want))
+            else:
+                R6.violation(inst, 'rest_slice:%s' % ('tail' if got[:-1] == want[:-1] else 'gaps'), 'rest_slice(%s, 0, 32) returns %s; the uncovered intervals are %s' % (list(combo), got, want),
+                             where(ea, rs))
+
     R3 = report.rule('C07.D3', 'evaluation never short-cuts on a flag that is not machine state', floor=1)
     ee = methods.get('eval_expr')
     if ee is None:
@@ -294,6 +386,9 @@ def value_chain_ok(fn, fr, val, at, res_name, depth=0):
 
 
 MUTANTS = [
+    ('overlap-neg-position', 'miasmx/expression/expression_eval_abstract.py', "                        out.append((ee, 0, ee.get_size()))\n", "                        out.append((ee, off_base, off_base+ee.get_size()))\n", 'C07.D6'),
+    ('overlap-unsorted', 'miasmx/expression/expression_eval_abstract.py', "                    out = sorted(out, key=lambda x:x[1])\n                    missing_slice", "                    missing_slice", 'C07.D6'),
+    ('rest-slice-last', 'miasmx/expression/expression_eval_abstract.py', "        if last != stop:\n            o.append((b, stop))", "        if last != stop:\n            o.append((a, stop))", 'C07.D6'),
     ('rep-zf-before-dec', 'miasmx/tools/emul_helper.py', "            info = l.opmode, l.admode\n            machine.eval_instr(mov(info, ecx, ExprOp('-', my_ecx, ExprInt(uint32(1)))))\n            machine.eval_expr(machine.pool[ecx], {})\n\n            if zf_w :\n                my_zf = machine.eval_expr(machine.pool[zf], {})\n                if 0xF3 in l.prefix and isinstance(my_zf, ExprInt) and my_zf.arg == 0:\n                    break\n                if 0xF2 in l.prefix and isinstance(my_zf, ExprInt) and my_zf.arg == 1:\n                    break\n",
      "            if zf_w :\n                my_zf = machine.eval_expr(machine.pool[zf], {})\n                if 0xF3 in l.prefix and isinstance(my_zf, ExprInt) and my_zf.arg == 0:\n                    break\n                if 0xF2 in l.prefix and isinstance(my_zf, ExprInt) and my_zf.arg == 1:\n                    break\n            info = l.opmode, l.admode\n            machine.eval_instr(mov(info, ecx, ExprOp('-', my_ecx, ExprInt(uint32(1)))))\n            machine.eval_expr(machine.pool[ecx], {})\n\n", 'C07.D5'),
     ('rep-memdst-unbound', 'miasmx/tools/emul_helper.py', "        tsc_inc = 0\n        mem_dst = []\n", "        tsc_inc = 0\n", 'C07.D5'),
